@@ -717,10 +717,30 @@ def corpus_cases():
 GEN = {"manifest": gen_manifest, "taglist": gen_taglist, "mapping": gen_mapping, "remap": gen_remap}
 
 
+def enum_mappings():
+    """Every table of one or two rules over 2 products x {1.0, any} x {replace, rename onto the other product, delete}
+    in the generic or the native flavor, queried with every product x {1.0, 2.0} x {generic, native}."""
+    import itertools
+    prods = ["a", "b"]
+    rules = []
+    for p, v, act, fl in itertools.product(prods, ["1.0", "any"], ["replace", "rename", "delete"], ["generic", NATIVE]):
+        other = "b" if p == "a" else "a"
+        outp, outv = (None, "3.0") if act == "replace" else (other, "1.0") if act == "rename" else (None, None)
+        rules.append({"inP": p, "inV": v, "outP": outp, "outV": outv, "flavor": fl, "overwrite": True})
+    queries = [[p, v, f] for p in prods for v in ("1.0", "2.0") for f in ("generic", NATIVE)]
+    out = [{"kind": "mapping", "style": "free", "adds": [r], "queries": queries} for r in rules]
+    out += [{"kind": "mapping", "style": "free", "adds": [r1, r2], "queries": queries}
+            for r1, r2 in itertools.product(rules, repeat=2) if r1 is not r2]
+    return out
+
+
 def run(ctx):
     cases = corpus_cases()
     ctx.hist("corpus", len(cases))
     evaluate(ctx, cases)
+    en = enum_mappings()
+    ctx.hist("enumerated-mappings", len(en))
+    evaluate(ctx, en)
     for kind, n in (("manifest", ctx.n(3000, 60000)), ("taglist", ctx.n(1500, 30000)), ("mapping", ctx.n(2000, 40000)),
                     ("remap", ctx.n(2000, 40000))):
         done = 0
